@@ -116,6 +116,11 @@ var flowPlans = map[string]flowPlan{
 		at, _, _ := tokensFor(d, "cw")
 		return M{"caller": "cw", "cred": cred("basic"), "subj": M{"kind": "access", "form": "issued", "id": at, "declared": "access"}, "actor": noRef(), "requested": "access", "scopes": []string{"openid"}}
 	}},
+	"exchangeJWT": {op: "TokenExchange", class: "tokens", prep: func(d *opdrv.Driver) M {
+		// the exchanging client gets JWT access tokens (private claims of the exchange are read from the storage)
+		at, _, _ := tokensFor(d, "cw")
+		return M{"caller": "cs", "cred": cred("basic"), "subj": M{"kind": "access", "form": "issued", "id": at, "declared": "access"}, "actor": noRef(), "requested": "access", "scopes": []string{"openid"}}
+	}},
 	"exchangeRefresh": {op: "TokenExchange", class: "tokens", prep: func(d *opdrv.Driver) M {
 		_, rt, _ := tokensFor(d, "cw")
 		return M{"caller": "cw", "cred": cred("basic"), "subj": M{"kind": "refresh", "form": "issued", "id": rt, "declared": "refresh"}, "actor": noRef(), "requested": "refresh", "scopes": []string{"openid"}}
